@@ -15,23 +15,13 @@ Theorem plural_range : forall e n, In (seval e n) (leaves e).
 Proof. exact seval_in_leaves. Qed.
 Print Assumptions plural_range.
 
-(* format_total at full strength (every locale, every flag combination) is FALSE of the current code: see format_total_refuted.
-   Proved on the whole region outside the zh defect: every shipped locale, every component record (counts unbounded),
-   every flag combination: the key exists and every replacement field of the template is substituted. *)
-Theorem format_total_partial : forall L d is_now absolute invert, In L all_locales ->
-  (l_name L <> "zh" \/ is_now = true \/ absolute = true) ->
+(* format_total at full strength: every shipped locale, every component record (counts unbounded), every flag combination:
+   the key exists and every replacement field of the template is substituted.  (Before the fix: commit that repaired the zh
+   '{time}' templates this was refuted for zh relative to another value; the refutation is gone with the defect.) *)
+Theorem format_total : forall L d is_now absolute invert, In L all_locales ->
   exists s, format L d is_now absolute invert = Ok s /\ s <> [] /\ brace_free s.
-Proof. exact format_total_partial_lemma. Qed.
-Print Assumptions format_total_partial.
-
-Theorem format_total_refuted : exists L d invert, In L all_locales /\ format L d false false invert = Raise E_KeyError.
-Proof. exact format_total_refuted_lemma. Qed.
-Print Assumptions format_total_refuted.
-
-(* the defect is not an isolated input: in zh EVERY difference relative to another value raises KeyError *)
-Theorem zh_relative_to_other_always_raises : In loc_zh all_locales /\ forall d invert, format loc_zh d false false invert = Raise E_KeyError.
-Proof. exact (conj zh_in_all zh_always_raises_lemma). Qed.
-Print Assumptions zh_relative_to_other_always_raises.
+Proof. exact format_total_lemma. Qed.
+Print Assumptions format_total.
 
 (* unit and count *)
 Theorem unit_count_positive : forall d u c, gen_pick d = Some (u, c) -> 1 <= c.
@@ -107,16 +97,9 @@ Theorem in_words_total : forall L d us sep, In L all_locales -> brace_free sep -
 Proof. exact in_words_total_explicit. Qed.
 Print Assumptions in_words_total.
 
-(* locale-dependent tokens (0 MMM, 1 MMMM, 2 dd, 3 ddd, 4 dddd, 5 e, 6 Do, 7 do, 8 Mo, 9 eo, 10 A): total for every locale, month, weekday,
-   any day number and hour — outside the nl defect (tokens e / eo); full strength is refuted below *)
-Theorem locale_tokens_total_partial : forall L tok month dow day hour, In L all_locales ->
+(* locale-dependent format tokens render for every locale (nl's missing week_data was repaired by a fix: commit) *)
+Theorem locale_tokens_total : forall L tok month dow day hour, In L all_locales ->
   0 <= tok <= 10 -> 1 <= month <= 12 -> 0 <= dow <= 6 ->
-  (l_name L <> "nl" \/ (tok <> 5 /\ tok <> 9)) ->
   exists s, token L tok month dow day hour = Ok s /\ s <> [] /\ brace_free s.
 Proof. exact tokens_total_explicit. Qed.
-Print Assumptions locale_tokens_total_partial.
-
-Theorem locale_tokens_total_refuted : exists L, In L all_locales /\
-  forall month dow day hour, token L 5 month dow day hour = Raise E_TypeError /\ token L 9 month dow day hour = Raise E_TypeError.
-Proof. exact tokens_refuted_lemma. Qed.
-Print Assumptions locale_tokens_total_refuted.
+Print Assumptions locale_tokens_total.
